@@ -289,6 +289,26 @@ def run_check(spec: CheckSpec, tier: str, base_seed: int, workers: int | None = 
         for ln in known_lines:
             print(ln, flush=True)
 
+        # 1b. regression: the committed witnesses of repaired defects (status=fixed) must not reproduce. A fixed entry
+        # suppresses nothing: if its violation is back, it is reported with the witness as the replay file
+        regressions: list[str] = []
+        fixed_here = [e for e in known if e["property"] == spec.property and e.get("status") == "fixed" and e.get("witness")]
+        futs = []
+        for e in fixed_here:
+            wpath = os.path.join(VERIF_ROOT, e["witness"])
+            if os.path.exists(wpath):
+                futs.append((e, wpath, pool.submit(_replay_worker, wpath)))
+        for e, wpath, fut in futs:
+            try:
+                hit, herr = fut.result(timeout=300)
+            except Exception as ex:  # noqa
+                hit, herr = False, f"{type(ex).__name__}: {ex}"
+            if herr:
+                harness_errors.append(f"witness {e['witness']}: {herr}")
+            elif hit:
+                print(f"  repaired defect is back: {e['kind']} ({e.get('commit')}): {e['what'][:200]}", flush=True)
+                regressions.append(wpath)
+
         # 2. miniature determinism self-test: first seeds twice, in two different worker processes
         n_det = min(4, n_runs)
         jobs = []
@@ -361,9 +381,11 @@ def run_check(spec: CheckSpec, tier: str, base_seed: int, workers: int | None = 
                 unlisted.append((r, v))
 
     exit_code = 0
-    violation_lines: list[str] = []
+    violation_lines: list[str] = [f"VIOLATION property={spec.property} replay={wp}" for wp in regressions]
     if harness_errors:
         exit_code = 2
+    elif regressions and not unlisted:
+        exit_code = 1
     elif unlisted:
         exit_code = 1
         # report one replay per distinct (kind, site), at most 3, smallest run index first
@@ -381,13 +403,13 @@ def run_check(spec: CheckSpec, tier: str, base_seed: int, workers: int | None = 
     wall = time.time() - t_start
     if write_evidence:
         _write_evidence(spec, sim, tier, base_seed, results, wall, known_hits, known_lines, other_props,
-                        len(unlisted), harness_errors, workers, cut)
+                        len(unlisted) + len(regressions), harness_errors, workers, cut, len(fixed_here))
     for ln in violation_lines:
         print(ln, flush=True)
     if harness_errors:
         for h in harness_errors[:5]:
             print("HARNESS-ERROR " + h, flush=True)
-    n_vi = len(unlisted)
+    n_vi = len(unlisted) + len(regressions)
     print(f"DONE property={spec.property} runs={len(results)} unlisted_violations={n_vi} "
           f"known_hits={sum(known_hits.values())} wall={wall:.1f}s exit={exit_code}", flush=True)
     return exit_code
@@ -429,7 +451,7 @@ def _minimise_and_write(spec: CheckSpec, sim: Simulator, r: dict, v: dict) -> st
 
 
 def _write_evidence(spec, sim, tier, base_seed, results, wall, known_hits, known_lines, other_props, n_unlisted,
-                    harness_errors, workers, cut) -> None:
+                    harness_errors, workers, cut, n_regression_witnesses=0) -> None:
     os.makedirs(EVIDENCE_DIR, exist_ok=True)
     faults: dict[str, int] = {}
     probes: dict[str, int] = {}
@@ -482,6 +504,7 @@ def _write_evidence(spec, sim, tier, base_seed, results, wall, known_hits, known
             "components_stub": sim.components_stub,
             "known_findings_hit": known_hits,
             "known_finding_lines": known_lines,
+            "regression_witnesses_replayed": n_regression_witnesses,
             "signals_for_other_properties": dict(sorted(other_props.items())),
             "harness_errors": harness_errors[:5],
             "repo": repo_root(),
